@@ -190,6 +190,22 @@ def site_program(site, payloads):
         elif site == "expr-kind-result":
             cont += [f"function f{i}() result({n})", f"integer(kind={pl}) :: {n}", f"{n} = 0", f"end function f{i}"]
             checks.append((f"proc/f{i}.html", f"variable-{n}", f"integer(kind={pl})", "integer"))
+        elif site == "initial-array2":
+            # two literals in one initial value: the second must be shown too
+            decl.append(f"character(len=*), parameter :: {n}(2) = [{L}, 'second<i>{i}']")
+            checks.append(("module/cm.html", f"variable-{n}", f"[{L}, 'second<i>{i}']"))
+        elif site == "initial-concat":
+            decl.append(f"character(len=*), parameter :: {n} = {L} // 'tail&{i}' // {L}")
+            checks.append(("module/cm.html", f"variable-{n}", f"{L} // 'tail&{i}' // {L}"))
+        elif site == "proc-prefix":
+            # payload = prefix keywords of a procedure statement; the heading must show exactly these
+            kind = "function" if i % 2 else "subroutine"
+            typed = "integer " if (kind == "function" and i % 4 == 1) else ""
+            if "module" in pl.split():
+                decl += ["interface", f"{pl} {typed}{kind} s{i}(a)", "integer, intent(in) :: a" + ("" if typed or kind == "subroutine" else f"\ninteger :: s{i}"), f"end {kind} s{i}", "end interface"]
+            else:
+                cont += [f"{pl} {typed}{kind} s{i}(a)", "integer, intent(in) :: a" + ("" if typed or kind == "subroutine" else f"\ninteger :: s{i}")] + ([f"s{i} = a"] if kind == "function" else []) + [f"end {kind} s{i}"]
+            checks.append(("module/cm.html", f"PREFIX:s{i}", pl))
         elif site == "relational":
             decl.append(f"logical, parameter :: {n} = {pl}")
             checks.append(("module/cm.html", f"variable-{n}", pl))
@@ -204,7 +220,7 @@ def site_program(site, payloads):
     return {"src/cm.f90": "\n".join(src) + "\n"}, checks
 
 
-SITES = ["initial-module", "initial-local", "initial-component", "initial-namelist", "bind-proc", "bind-var", "len-expr", "kind-expr", "dim-expr",
+SITES = ["initial-array2", "initial-concat", "initial-module", "initial-local", "initial-component", "initial-namelist", "bind-proc", "bind-var", "len-expr", "kind-expr", "dim-expr",
 ]
 EXPR_SITES = ["expr-dim-result", "expr-dim-arg", "expr-dim-module", "expr-dim-component", "expr-dimattr-result", "expr-kind-result"]
 # expressions (no character literals) for array bounds / kind selectors; `nn` is a module parameter
@@ -252,6 +268,21 @@ def check_batch(st: Stats, site, payloads, neutral_shape):
             if page not in doms:
                 doms[page] = Dom(p.read_text())
             dom = doms[page]
+            if anchor.startswith("PREFIX:"):
+                name = anchor.split(":")[1]
+                pth = find_path(dom.root, lambda n: n[0] == "h3" and re.search(rf"\b{name}\b", text_of(n)) and re.search(r"\b(function|subroutine)\b", text_of(n)))
+                row = pth[-1] if pth else None
+                if row is not None:
+                    words = set(re.findall(r"\b(impure|pure|elemental|non_recursive|recursive|module)\b", norm(text_of(row)).lower()))
+                    wantw = set(want.lower().split())
+                    st.states.add(core.digest([site, sorted(words)]))
+                    if words != wantw:
+                        st.violation("text-differs-from-source", stratum, dict(site=site, symbols="", prefix=want, extra=",".join(sorted(words - wantw)), missing=",".join(sorted(wantw - words))),
+                                     inp, norm(text_of(row))[:200], want)
+                        st.stratum(stratum, 1)
+                    else:
+                        st.stratum(stratum, 0)
+                    continue
             if anchor.startswith("HEADING:"):
                 name = anchor.split(":")[1]
                 pth = find_path(dom.root, lambda n: n[0] == "h2" and name in text_of(n)) or find_path(dom.root, lambda n: n[0] in ("h1", "h3") and name in text_of(n) and "bind" in text_of(n))
@@ -288,7 +319,7 @@ def work(job):
     neutral = "x" if site not in ("relational",) else "1 .eqv. 2"
     if site in EXPR_SITES:
         neutral = "4"
-    if site == "binding-target":
+    if site in ("binding-target", "proc-prefix"):
         neutral = None
     if site == "kind-expr-fn":
         neutral = "4"
@@ -300,9 +331,29 @@ def work(job):
     return st
 
 
+def _prefixes():
+    out = []
+    groups = [["pure", "impure"], ["elemental"], ["recursive", "non_recursive"], ["module"]]
+    for k in range(1, 4):
+        for gs in itertools.combinations(range(len(groups)), k):
+            for choice in itertools.product(*(groups[g] for g in gs)):
+                if "pure" in choice and "elemental" not in choice and "impure" in choice:
+                    continue
+                if "elemental" in choice and ("recursive" in choice) and False:
+                    continue
+                for perm in itertools.permutations(choice):
+                    out.append(" ".join(perm))
+    return [p for p in out if not ("impure" in p.split() and "elemental" not in p.split())] + ["impure elemental", "elemental impure", "IMPURE ELEMENTAL", "Non_Recursive"]
+
+
+PREFIXES = sorted(set(_prefixes()))
+# literals with many backslashes (paths, LaTeX, regular expressions)
+EXTRA_PAYLOADS = ["C:\\dir\\sub\\x", "\\\\\\\\", "a\\b\\c\\d\\e", "\\frac{\\alpha}{\\beta}\\,"]
+
+
 def payload_sets(tier):
     n = 2 if tier == "quick" else 3
-    out = []
+    out = list(EXTRA_PAYLOADS)
     for k in range(1, n + 1):
         for seq in itertools.product(SYMS, repeat=k):
             s = "a" + "".join(seq) + "z"
@@ -320,7 +371,7 @@ def replay(path):
     st = Stats()
     site = i["site"]
     neutral = "4" if site in EXPR_SITES else ("x" if site != "relational" else "1 .eqv. 2")
-    nshape = check_batch(Stats(), site, [neutral], None).get(neutral) if site != "binding-target" else None
+    nshape = check_batch(Stats(), site, [neutral], None).get(neutral) if site not in ("binding-target", "proc-prefix") else None
     check_batch(st, site, [i["payload"]], nshape)
     print(i)
     for v in st.violations:
@@ -344,6 +395,7 @@ def main(tier, replay_path=None):
         # a kind selector is one scalar expression
         jobs.append((es, [e for e in EXPRS if es != "expr-kind-result" or (":" not in e and ", " not in e.replace("(nn/2, 1)", "").replace("[1, 2]", ""))]))
     jobs.append(("binding-target", [f"impl_{c}" for c in "abcdefgh"]))
+    jobs.append(("proc-prefix", PREFIXES))
     k = core.SEED % 5
     jobs = jobs[k:] + jobs[:k]
     total = Stats()
